@@ -335,6 +335,9 @@ pub fn handle_scenarios(thorough: bool) -> Vec<Scenario> {
             Op::new("reopen").handle("h:a/b").flags(O_RDONLY | O_DIRECTORY),
             Op::new("reopen").handle("h:e/f").flags(O_RDWR | O_APPEND),
             Op::new("reopen").handle("nf:a/b/lnk").flags(O_RDONLY),
+            // O_PATH: nothing but the identity of the returned object tells a correct re-open from a descriptor of something else
+            Op::new("reopen").handle("h:e/f").flags(O_PATH),
+            Op::new("reopen").handle("h:a/b").flags(O_PATH | O_DIRECTORY).capi(),
             Op::new("reopen").handle("h:e/f").flags(O_RDONLY).capi(),
             Op::new("proc_open").procfs("new").base("self").path("status").flags(O_RDONLY),
             Op::new("proc_open_follow").procfs("new").base("thread-self").path("fd/3").flags(O_PATH),
@@ -523,6 +526,11 @@ pub fn items(prop: &str, tier: &str) -> Vec<Item> {
             scens.extend(lookup_scenarios(th).into_iter().step_by(if th { 1 } else { 5 }));
             scens.extend(mutating_scenarios(th).into_iter().step_by(if th { 1 } else { 3 }));
             scens.extend(handle_scenarios(th).into_iter().step_by(if th { 1 } else { 3 }));
+            // remove_all of a non-directory takes the fast path (unlinkat, rmdir, scan open) - always included
+            if !th { scens.extend(mutating_scenarios(false).into_iter().filter(|s| s.op.name == "remove_all" && s.op.path.as_deref() == Some("e/f"))); }
+            // O_PATH re-opens and one-shot opens (only the identity of the result tells success from a descriptor of something else) - always included
+            if !th { scens.extend(handle_scenarios(false).into_iter().filter(|s| s.op.name == "reopen" && s.op.flags.unwrap_or(0) & O_PATH != 0)); scens.extend(lookup_scenarios(false).into_iter().filter(|s| s.backend == "E" && s.op.name == "open_subpath" && s.op.flags == Some(O_PATH) && s.path == "a/b/lnk/f")); }
+            { let mut seen = BTreeSet::new(); scens.retain(|s| seen.insert(s.name.clone())); }
             for s in scens.clone() { v.push(item(s, Plan::Fault { bound: 1, cfg: fault_cfg(th) }, if th { 40_000 } else { 4_000 })); }
             // a descriptor limit that bites somewhere in the middle of the operation (a real RLIMIT_NOFILE, so that descriptors
             // the operation closes become available again - unlike the EXHAUST deviation, where every later creation fails)
@@ -544,6 +552,16 @@ pub fn items(prop: &str, tier: &str) -> Vec<Item> {
                     let mut it = item(sc, Plan::Fault { bound: 1, cfg: FaultCfg { all_syscalls: false, per_class: 4, eagain_runs: vec![], exhaustion: false, custom: Some((names, vec![libc::ENOSYS, libc::EINVAL, libc::EPERM])) } }, 4_000);
                     it.mount_api = 2;
                     it.scripted = Some(("statx".into(), sub.into(), Mutation::mount(crate::mountmc::MKind::BindFile, "{PID}/exe")));
+                    v.push(it);
+                }
+            }
+            // a caller whose /proc is not a procfs (an empty tmpfs is mounted there; the library works on its private procfs): the
+            // error-formatting reads of /proc/thread-self/fd/N fail, which must not disturb how the failing call itself is handled
+            for op in [Op::new("resolve").root(ROOT_IN).path("a/b/../b/c/d"), Op::new("mkdir_all").root(ROOT_IN).path("a/b/x/y").mode(0o755), Op::new("open_subpath").root(ROOT_IN).path("a/b/lnk/f").flags(O_RDONLY), Op::new("remove_all").root(ROOT_IN).path("a/b/c")] {
+                for b in if th { vec!["K", "E"] } else { vec!["K"] } {
+                    let sc = Scenario { name: format!("tmpfs-proc:{}/{}", b, op.brief()), backend: b.into(), op: op.clone(), path: String::new() };
+                    let mut it = item(sc, Plan::Fault { bound: 1, cfg: fault_cfg(th) }, if th { 40_000 } else { 4_000 });
+                    it.proc_opts = Some("TMPFS".into());
                     v.push(it);
                 }
             }
@@ -795,6 +813,14 @@ fn postcondition(scen: &Scenario, o: &Obs) -> Option<String> {
         "create" | "create_file" | "mkdir" | "mknod" | "symlink" | "hardlink" => if look(&path, true).is_none() { Some(format!("reported success but {} does not exist", path)) } else { None },
         "mkdir_all" => match look(&path, false) { Some(st) if st.is_dir() => { let fd = o.fd.as_ref()?; if (st.dev, st.ino) != (fd.dev, fd.ino) { Some("mkdir_all handle is not the directory at the path".into()) } else { None } } _ => Some(format!("reported success but {} is not a directory", path)) },
         "remove_file" | "remove_dir" | "remove_all" => if look(&path, true).is_some() { Some(format!("reported success but {} still exists", path)) } else { None },
+        // handle keys "h:<path>" / "nf:<path>": the re-opened object is the handle's object
+        "reopen" => {
+            let key = op.handle.clone().unwrap_or_default();
+            let (nf, hp) = if let Some(p) = key.strip_prefix("h:") { (false, p.to_string()) } else if let Some(p) = key.strip_prefix("nf:") { (true, p.to_string()) } else { return None };
+            let st = look(&hp, nf)?; let fd = o.fd.as_ref()?;
+            if (st.dev, st.ino) != (fd.dev, fd.ino) { return Some(format!("reopen returned a descriptor of another object than the handle's ({:?}, type bits {:o})", fd.procpath, fd.mode & libc::S_IFMT)); }
+            None
+        }
         "rename" => { let p2 = op.path2.clone().unwrap_or_default(); if op.flags.unwrap_or(0) == 0 && (look(&path, true).is_some() || look(&p2, true).is_none()) { Some("rename reported success but the entries did not move".into()) } else { None } }
         _ => None,
     }
@@ -1079,6 +1105,10 @@ fn judge(prop: &str, it: &Item, scen: &Scenario, w: &World, eo: &ExecOut, counts
             for (_, f) in &eo.faults {
                 if (f == "EAGAINx16" || f == "EAGAINx17") && (o.ok || o.errno != Some(libc::EXDEV)) {
                     v.push((format!("eagain16:{}", scen.op.name), format!("16 consecutive EAGAINs from openat2 ended as {} instead of a safety violation", outcome_text(w, eo, 0))));
+                }
+                // fewer than 16: "as if nothing happened" - an operation that succeeds undisturbed must still succeed
+                if (f == "EAGAIN" || f == "EAGAINx15") && !o.ok && o.errno != Some(libc::EAGAIN) && BASELINE_OK.load(std::sync::atomic::Ordering::Relaxed) == 1 && eo.faults.len() == 1 {
+                    v.push((format!("eagain-not-retried:{}", scen.op.name), format!("{} EAGAIN(s) from openat2 turned an operation that succeeds undisturbed into {} ({})", if f == "EAGAIN" { "1" } else { "15" }, outcome_text(w, eo, 0), o.msg.clone().unwrap_or_default().chars().take(200).collect::<String>())));
                 }
                 if (f == "EAGAIN" || f == "EAGAINx15") && !o.ok && o.errno == Some(libc::EAGAIN) {
                     v.push((format!("eagain-not-retried:{}", scen.op.name), format!("{} EAGAIN(s) from openat2 surfaced as {} instead of being retried", if f == "EAGAIN" { "1" } else { "15" }, outcome_text(w, eo, 0))));
